@@ -37,7 +37,8 @@ import (
 
 // Item is what one Recv of the scripted transport does.
 // K: msg (a message with N notifications arrives), err, eof (Stop: return
-// ErrStopReading instead of io.EOF), block (until cancelled / closed).
+// ErrStopReading instead of io.EOF), block (until cancelled / closed), blockq
+// (a quiet stream that its context does not wake: until the Impl is closed).
 type Item struct {
 	K    string `json:"k"`
 	N    int    `json:"n,omitempty"`
@@ -66,7 +67,10 @@ type Attempt struct {
 // Gates: before, race, end, init:k, sub:k, recv:k:i, h:k:n (n-th handler
 // invocation of attempt k), disc:k, reset:k, sleep:k (Delay microseconds after
 // the disconnect callback of attempt k returned, not parked), postsub:k (Delay
-// microseconds after Impl.Subscribe of attempt k returned, not parked).
+// microseconds after Impl.Subscribe of attempt k returned, not parked),
+// implclose:k:n (inside the n-th Close call on the transport of attempt k, after
+// it took effect: a slow Close; the caller -- the re-subscribe tearing down the
+// previous transport, run() after an error, or Close itself -- is parked there).
 // Delay: microseconds to wait after the act before the subscriber continues.
 type Act struct {
 	Gate  string `json:"gate"`
@@ -192,7 +196,9 @@ type scen struct {
 	cancelCalled bool // under mu
 	ending       bool // under mu: the first session is over, late acts are dropped
 	inThen       int32
-	lastDisc     int64 // unix nanos at which the disconnect callback last returned
+	thenClosing  bool            // under mu: a Close started by asyncClose is in progress
+	pending      []chan struct{} // under mu: Close calls started by asyncClose
+	lastDisc     int64           // unix nanos at which the disconnect callback last returned
 	kept         []keptNote
 	stopCalled   int32
 	closeFailed  int32
@@ -268,10 +274,7 @@ func (s *scen) act(a Act, parked bool) {
 	if atomic.LoadInt32(&s.inThen) != 0 && parked && a.What == "close" && !s.c.reconnect() {
 		// a gate reached by a later Subscribe call of a bare client: Close does not
 		// wait for Subscribe there, so it is simply made inline
-		atomic.StoreInt32(&s.stopCalled, 1)
-		s.log(Ev{T: "closecall"})
-		err := s.closer()
-		s.log(Ev{T: "closeret", OK: err == nil})
+		s.asyncClose(strings.HasPrefix(a.Gate, "implclose"))
 		return
 	}
 	switch a.What {
@@ -296,10 +299,14 @@ func (s *scen) act(a Act, parked bool) {
 					}
 				}
 			} else {
+				wait := time.Second
+				if strings.HasPrefix(a.Gate, "implclose") {
+					wait = 20 * time.Millisecond // the subscriber may hold c.mu here
+				}
 				select {
 				case <-s.closeDone:
 				case <-s.dead:
-				case <-time.After(time.Second):
+				case <-time.After(wait):
 				}
 			}
 		}
@@ -362,6 +369,7 @@ type impl struct {
 	pos    int
 	closed chan struct{}
 	once   sync.Once
+	ncl    int32
 }
 
 func factory(ctx context.Context, d client.Destination) (client.Impl, error) {
@@ -582,6 +590,21 @@ func (m *impl) Recv() error {
 			return client.ErrStopReading
 		}
 		return io.EOF
+	case "blockq":
+		// quiet stream: only the transport's own Close wakes it.  If nobody has
+		// called Close so far, do it now (Close while the stream is idle).
+		if atomic.LoadInt32(&m.s.inThen) != 0 {
+			if !m.s.c.reconnect() {
+				go m.s.asyncClose(false)
+			}
+		} else if !m.s.closeWasCalled() {
+			m.s.act(Act{What: "close"}, false)
+		}
+		select {
+		case <-m.closed:
+		case <-m.s.dead:
+		}
+		return errImpl
 	case "block":
 		if atomic.LoadInt32(&m.s.inThen) != 0 {
 			if !m.s.c.reconnect() {
@@ -610,6 +633,8 @@ func (m *impl) Recv() error {
 func (m *impl) Close() error {
 	m.s.log(Ev{T: "implclose", K: m.k})
 	m.once.Do(func() { close(m.closed) })
+	n := int(atomic.AddInt32(&m.ncl, 1)) - 1
+	m.s.gate(fmt.Sprintf("implclose:%d:%d", m.k, n))
 	if m.gs != nil {
 		return nil // client/gnmi's Close only closes the grpc connection, which the stub does not have
 	}
@@ -866,12 +891,19 @@ func runCase(c Case) []Ev {
 				waits = append(waits, closeIt())
 			}
 		}
-		for _, w := range waits {
-			select {
-			case <-w:
-			case <-timer.C:
-				return hang()
+		for len(waits) > 0 {
+			for _, w := range waits {
+				select {
+				case <-w:
+				case <-timer.C:
+					return hang()
+				}
 			}
+			// Close calls the gates started meanwhile
+			s.mu.Lock()
+			waits = s.pending
+			s.pending = nil
+			s.mu.Unlock()
 		}
 	}
 	s.mu.Lock()
@@ -891,6 +923,47 @@ func runCase(c Case) []Ev {
 	s.freeze()
 	s.kill()
 	return s.snapshot()
+}
+
+// asyncClose calls Close from a goroutine of its own during the later calls of a
+// bare client and waits for it a little (inside a transport's Close the
+// subscriber may hold c.mu, so Close cannot return before the gate is left).
+func (s *scen) asyncClose(short bool) {
+	s.mu.Lock()
+	if s.thenClosing {
+		s.mu.Unlock()
+		return
+	}
+	s.thenClosing = true
+	s.mu.Unlock()
+	atomic.StoreInt32(&s.stopCalled, 1)
+	done := make(chan struct{})
+	go func() {
+		defer close(done)
+		defer func() {
+			if r := recover(); r != nil {
+				s.log(Ev{T: "panic"})
+			}
+			s.mu.Lock()
+			s.thenClosing = false
+			s.mu.Unlock()
+		}()
+		s.log(Ev{T: "closecall"})
+		err := s.closer()
+		s.log(Ev{T: "closeret", OK: err == nil})
+	}()
+	wait := time.Second
+	if short {
+		wait = 20 * time.Millisecond
+	}
+	select {
+	case <-done:
+	case <-time.After(wait):
+	case <-s.dead:
+	}
+	s.mu.Lock()
+	s.pending = append(s.pending, done)
+	s.mu.Unlock()
 }
 
 // thenCancel cancels the caller's context during the later calls (the only
@@ -930,6 +1003,8 @@ func itemTerm(it Item) string {
 		return "IErr"
 	case "eof":
 		return "IEof"
+	case "blockq":
+		return "IBlockQ"
 	}
 	return "IBlock"
 }
@@ -1008,6 +1083,7 @@ func stop() Item             { return Item{K: "eof", Stop: true} }
 func ierr() Item             { return Item{K: "err"} }
 func ierrK(kind string) Item { return Item{K: "err", E: kind} }
 func block() Item            { return Item{K: "block"} }
+func blockq() Item           { return Item{K: "blockq"} }
 func ok(items ...Item) Attempt {
 	return Attempt{Init: true, Sub: true, Items: items}
 }
@@ -1110,7 +1186,11 @@ func randScript(r *vh.Rand, allowEmpty bool) []Attempt {
 		}
 		switch r.Pick(3, 2, 2, 3, 2) {
 		case 0:
-			its = append(its, block())
+			if k > 0 && r.Chance(1, 4) {
+				its = append(its, blockq())
+			} else {
+				its = append(its, block())
+			}
 		case 1:
 			its = append(its, eof())
 		case 2:
@@ -1363,6 +1443,45 @@ func main() {
 							continue
 						}
 						cs = append(cs, Case{Family: "calls", Kind: kind, Inner: inner, Attempts: as, Ops: first, Then: th, NoCB: rc && (si+2*fi+ti)%5 == 0})
+					}
+				}
+			}
+		}
+		// Close / cancel at every point of a RE-subscribe, including inside the slow
+		// Close of the previous transport, with quiet streams their context does not wake
+		resubScripts := []struct {
+			as   []Attempt
+			k, n int // the teardown is the n-th Close call on the transport of attempt k
+		}{
+			{[]Attempt{ok(msg(), eof()), ok(blockq())}, 0, 0},
+			{[]Attempt{ok(msg(), eof()), ok(msg(), blockq())}, 0, 0},
+			{[]Attempt{ok(msg(), ierr()), ok(msg(), msg3(), blockq())}, 0, 1},
+			{[]Attempt{ok(msg(), eof()), ok(msg(), stop()), ok(blockq())}, 1, 0},
+			{[]Attempt{ok(msg(), eof()), ok(msg(), block())}, 0, 0},
+		}
+		for _, kind := range kinds {
+			rc := strings.HasPrefix(kind, "re")
+			for si, rs := range resubScripts {
+				k2 := rs.k + 1 // the attempt that re-subscribes
+				points := []string{fmt.Sprintf("implclose:%d:%d", rs.k, rs.n), fmt.Sprintf("init:%d", k2), fmt.Sprintf("sub:%d", k2),
+					fmt.Sprintf("postsub:%d", k2), fmt.Sprintf("recv:%d:0", k2)}
+				if rc {
+					points = append(points, fmt.Sprintf("reset:%d", rs.k), fmt.Sprintf("disc:%d", rs.k))
+				}
+				for pi, g := range points {
+					for _, d := range []int{0, 300} {
+						inner := []string{"fake", "gnmi"}[(si+pi)%2]
+						c := Case{Family: "resub", Kind: kind, Inner: inner, Ops: []Act{{Gate: g, What: "close", Delay: d}}}
+						if rc {
+							c.Attempts = rs.as
+						} else {
+							// a reused bare client: one Subscribe per attempt
+							c.Attempts = rs.as
+							for j := 1; j < len(rs.as); j++ {
+								c.Then = append(c.Then, "sub")
+							}
+						}
+						cs = append(cs, c)
 					}
 				}
 			}
